@@ -28,9 +28,11 @@ objects (handles `Hnd`):
   (operator overloading of `sqlbuilder.SQLExpression`); every other `==` of the fragment is plain equality;
   `sqlbuilder.OR(*l)` builds `app "OR" l`; `"fmt" % (…)` builds `app "%" [fmt, …]`.
 queries (assumed not to change anything):
-* `self._SO_depends()` (text-checked to be `findDependencies(cls.__name__, cls.sqlmeta.registry)`) : the model's
-  `dependents S c` — the classes of the registry, in registry order, that have a foreign key with a cascade setting
-  to `c` or a related join whose other side is `c`;
+* `self._SO_depends()` (text-checked to be `findDependencies(cls.__name__, cls.sqlmeta.registry)`) : `destroySelfX`
+  takes the model's `dependents S c` — the classes of the registry, in registry order, that have a foreign key with a
+  cascade setting to `c` or a related join whose other side is `c`; `fdepsX` runs the TRANSLATED `findDependencies`
+  and `fdepsX_eq` proves that it computes exactly that, given that
+  `classregistry.registry(name).allClasses()` lists the model's classes `0 … S.length-1` in registry order;
 * `findDependantColumns(cname c, cls k)` : `destroySelfX` takes the model's `depCols S c k` (as column objects);
   `fdcX` runs the TRANSLATED function and `fdcX_eq` proves that it computes exactly that;
 * `k.select(q, connection=conn)` : a lazy select result `app "select" [cls k, q]` on the victim's OWN connection
@@ -75,6 +77,7 @@ inductive Hnd where
   | field (k f : Nat)
   | conn
   | cache
+  | registry
 deriving DecidableEq, Repr
 
 /-- values of the embedding -/
@@ -232,6 +235,9 @@ def gQuery (S : Schema) (w : XW) (o : PVal) (m : String) (args : List PVal) (kw 
        | some _ => .ok (selV k q)
        | none => .stuck)
     else .stuck
+  | .obj .registry, [] =>
+    if m = "allClasses" ∧ kw = [] then .ok (PyDestroy.Val.ofList ((List.range S.length).map fun k => .obj (.cls k)))
+    else .stuck
   | .app t a, [] =>
     if m = "count" ∧ kw = [] then
       (match selOf (.app t a) with
@@ -246,6 +252,10 @@ def gFn (fdc : Nat → Nat → R PVal) (name : String) (args : List PVal) : R PV
   else if name = "findDependantColumns" then
     (match args with
      | [.obj (.cname c), .obj (.cls k)] => fdc c k
+     | _ => .stuck)
+  else if name = "classregistry.registry" then
+    (match args with
+     | [_] => .ok (.obj .registry)
      | _ => .stuck)
   else .stuck
 
@@ -311,6 +321,11 @@ def fdcModel (S : Schema) (c k : Nat) : R PVal :=
 def fdcX (S : Schema) (c k : Nat) : CallRes Hnd XW :=
   PyDestroy.run (gIface S (fun _ => false) (fun _ _ => .stuck) (fun db _ _ => .ok db) .none) findDependantColumnsProg
     [.obj (.cname c), .obj (.cls k)] ⟨⟨[], [], []⟩, []⟩
+
+/-- the TRANSLATED `findDependencies(cname c, <registry name>)`; its call of `findDependantColumns` is the model's -/
+def fdepsX (S : Schema) (c : Nat) : CallRes Hnd XW :=
+  PyDestroy.run (gIface S (fun _ => false) (fdcModel S) (fun db _ _ => .ok db) .none) findDependenciesProg
+    [.obj (.cname c), .none] ⟨⟨[], [], []⟩, []⟩
 
 /-- the interface `destroySelf` runs against: victim `(c, i)`, recursive calls go to `rec` -/
 @[reducible] def dIface (S : Schema) (lz : Nat → Bool) (rec : DB → Nat → Nat → Res) (c i : Nat) : Iface Hnd XW :=
